@@ -602,6 +602,12 @@ pub fn coordinator_main(check: &dyn Check, ctx: &Ctx, jobs: u64, max_secs: Optio
             .filter(|c| c % jobs == w as u64 && !res.chunks_done.contains(c) && !res.chunks_skipped.contains(c))
             .collect();
         for c in pending {
+            // every aborting chunk is a violation already; once a few are
+            // named, the rest of the stripe is left unexplored (and reported
+            // as such) rather than waiting out the watchdog chunk by chunk
+            if abort_cases.len() >= 4 {
+                break;
+            }
             let spec = vec!["--only".to_string(), c.to_string(), "--pinpoint".to_string()];
             let (r2, cr2) = run_workers(id, ctx.tier, ctx.seed, vec![spec], silence);
             merge(&mut res, r2);
